@@ -1,4 +1,4 @@
-import ParolModel.Proofs.KSetsCode
+import ParolModel.Proofs.KFirstCode
 /-! # C06 — FIRST_k and FOLLOW_k sets match their definitions
 
 Property text: *For every grammar parol accepts and every k up to the maximum lookahead, the FIRST_k
@@ -44,6 +44,46 @@ theorem cache_order_irrelevant (G : Grammar) (fuel : Nat) (reqs : List Req) (rs 
     (h : runReqs G fuel reqs Caches.empty = some rs) :
     reqs.mapM (pureReply G fuel) = some rs :=
   runReqs_spec reqs Caches.empty rs (cacheOK_empty G fuel) h
+
+/-- **Seeding never loses a tuple**: for EVERY grammar (left-recursive or not) and k ≥ 1, every
+    fixpoint of the step function of `first_k` — in particular whatever the seeded iteration stops
+    at — contains the declarative FIRST_k set in every non-terminal slot and every production slot. -/
+theorem first_any_fixpoint_superset (G : Grammar) (k : Nat) (V : FirstVec) (hk : 1 ≤ k) (hno : NoEoi G)
+    (hkeys : V.nts.map (·.1) = ntsOf G) (hfix : vecSame (stepFirst G k V) V = true) :
+    (∀ A t, FirstK G k [.n A] t → t ∈ envGet V.nts A) ∧
+    (∀ i p, G.prods[i]? = some p → ∀ t, FirstK G k p.rhs t → t ∈ V.prods.getD i []) :=
+  fixpoint_superset hk hno hkeys hfix
+
+/-- **Uniqueness of the fixpoint without left recursion** (the hard lemma): in a productive grammar
+    whose left-corner relation (through nullable prefixes, i.e. including hidden left recursion) is
+    well-founded, every well-formed fixpoint of the step function of `first_k` holds EXACTLY the
+    declarative FIRST_k sets. Hence the seed (FIRST_{k−1} re-tagged) cannot influence the result. -/
+theorem first_fixpoint_unique_noLeftRec (G : Grammar) (k : Nat) (V : FirstVec) (hk : 1 ≤ k)
+    (hno : NoEoi G) (hprod : Productive G) (hnlr : NoLeftRec G) (hwf : VecWf G k V)
+    (hfix : vecSame (stepFirst G k V) V = true) :
+    (∀ A t, t ∈ envGet V.nts A ↔ FirstK G k [.n A] t) ∧
+    (∀ i p, G.prods[i]? = some p → ∀ t, t ∈ V.prods.getD i [] ↔ FirstK G k p.rhs t) :=
+  fixpoint_eq_spec hk hno hprod hnlr hwf hfix
+
+/-- **`first_k` = definition**: *"For every grammar parol accepts and every k …, the FIRST_k set
+    computed for each production and non-terminal … equal[s] the set defined by k-truncated
+    concatenation over all derivations"* — for productive grammars without (hidden) left recursion
+    and every k ≥ 1, whatever the faithful model of the public `first_k` (seeded with its own result
+    for k − 1, recursively) returns is exactly the declarative set, slot by slot. -/
+theorem first_k_eq_spec (G : Grammar) (fuel k : Nat) (V : FirstVec) (hk : 1 ≤ k)
+    (hno : NoEoi G) (hprod : Productive G) (hnlr : NoLeftRec G)
+    (h : firstCode G fuel k = some V) :
+    (∀ A t, t ∈ envGet V.nts A ↔ FirstK G k [.n A] t) ∧
+    (∀ i p, G.prods[i]? = some p → ∀ t, t ∈ V.prods.getD i [] ↔ FirstK G k p.rhs t) := by
+  obtain ⟨hwf, hfix⟩ := firstCode_fix hno k V h
+  exact fixpoint_eq_spec hk hno hprod hnlr hwf hfix
+
+/-- The hypothesis is needed: with hidden left recursion (`A: B A | ; B: | "b" "c";`, which parol
+    rejects) the seeded iteration keeps stale tuples of the k = 1 seed at k = 2 and ends in a
+    fixpoint that is NOT the least one. -/
+theorem first_unique_needs_noLeftRec :
+    seededAgrees ⟨0, [⟨0, [.n 1, .n 0]⟩, ⟨0, []⟩, ⟨1, []⟩, ⟨1, [.t 5, .t 6]⟩]⟩ 2 50 = some false := by
+  decide
 
 /-! ## non-vacuity -/
 
